@@ -2,16 +2,21 @@
    Model observation `run`, executable statement `spec_ok`. *)
 From Verif Require Export Base.Prelude Base.StrUtil Base.Index Base.NdArr Base.PyRange Base.StrSeq
   Model.MapSpec Model.MapSpecSpec Model.MapRun Model.MapDenote Model.SymBody Model.MapResume Model.FixedSpec
-  Model.CrashFS.
+  Model.CrashFS Model.CrashExec.
 From Verif Require Export Corr.Run_C06.
 
 Inductive case :=
 | CEvents (q : req) (st : storage) (old : bool)
     (* a first run (cleanup=True, fresh folder) and a second run with cleanup=False on the completed folder:
        event traces and outcomes.  old = the write protocol before the repair, re-created by the harness *)
-| CCrash (q : req) (st : storage) (old : bool) (fail : option (str * nat)) (k1 : option nat) (k2 : option nat).
+| CCrash (q : req) (st : storage) (old : bool) (fail : option (str * nat)) (k1 : option nat) (k2 : option nat)
     (* first run: the n-th call of function `fail` raises (if given); the process is killed at event k1 (if given);
        then (if k2 is given) a resume with cleanup=False killed at event k2; then a final resume with cleanup=False *)
+| CChain (q : req) (st : storage) (steps : list (str * nat * bool)).
+    (* a chain of interruptions by a RAISING user function: the first run (cleanup=True) and every following resumed
+       run (cleanup=False) raises at the n-th call (numbered as in an uninterrupted run) of the named function - a
+       transient fault: only that run raises there; the flag = the run uses the reverse-order executor of
+       Model/CrashExec.v, else it is sequential (parallel=False); then a final sequential resume with cleanup=False *)
 
 Definition variant_of (old : bool) : variant := if old then OldCode else NewCode.
 
@@ -84,6 +89,19 @@ Definition fail_body (line : option str) (f : mfunc) (kw : env) : result (list v
 
 Definition run_on (b : mfunc -> env -> result (list val)) (v : variant) (st : storage) (q : req) (cleanup : bool) (s0 : fs)
   : outcome := run_fs b v st (q_funcs q) (q_inputs q) (q_internal q) cleanup s0.
+Definition run_on_exec (b : mfunc -> env -> result (list val)) (v : variant) (st : storage) (q : req) (cleanup : bool) (s0 : fs)
+  : outcome := run_fs_exec b v st (q_funcs q) (q_inputs q) (q_internal q) cleanup s0.
+
+(* the interrupted runs of a chain: the file system they leave and the user calls they made *)
+Definition run_chain (q : req) (st : storage) (steps : list (str * nat * bool)) : fs * list str :=
+  let r := fold_left (fun (acc : fs * list str * bool) (step : str * nat * bool) =>
+                        let '(s0, calls, first) := acc in
+                        let '(fn, n, exec) := step in
+                        let b := fail_body (nth_call_line q fn n) in
+                        let r := (if exec then run_on_exec else run_on) b NewCode st q first s0 in
+                        (o_fs r, calls ++ call_lines (o_events r), false))
+                     steps (empty_fs, [], true) in
+  (fst (fst r), snd (fst r)).
 
 (* load_outputs on the folder the final run left: every output read back through init_store *)
 Definition sx_reload (q : req) (v : variant) (st : storage) (r : outcome) : sx :=
@@ -143,6 +161,11 @@ Definition run (c : case) : sx :=
           SL [listing q s2; sx_outcome q (o_result r);
               Run_C06.sx_calls (call_lines e1 ++ call_lines e2); Run_C06.sx_calls (call_lines (o_events r)); sx_reload q v st r]
       end
+  | CChain q st steps =>
+      let sc := run_chain q st steps in
+      let r := run_on sym_body NewCode st q false (fst sc) in
+      SL [listing q (fst sc); sx_outcome q (o_result r);
+          Run_C06.sx_calls (snd sc); Run_C06.sx_calls (call_lines (o_events r)); sx_reload q NewCode st r]
   end.
 
 (* ------------------------------------------------------------------ the executable statement *)
@@ -187,6 +210,27 @@ Definition stored_calls (q : req) (o : oracle) (st : storage) (lst : sx) : list 
               else if forallb (fun out => listed_complete lst (p_single out)) (fouts f) then lines else [])
            (q_funcs q).
 
+(* the statement for an interrupted and then resumed run; obs = [files before the final resume; outcome of the final
+   resume; calls before; calls of the final resume; the folder read back] - whatever interrupted the earlier runs
+   (a kill at any file-system event, a raising user function, sequentially or behind an out-of-order executor,
+   once or several times in a row) *)
+Definition resumed_ok (q : req) (st : storage) (obs : sx) : bool :=
+      match mk_oracle q, obs with
+  | None, _ => true
+  | Some o, SL [lst; out; _; calls; reload] =>
+      match un_strs calls with
+      | Some cl =>
+          (* the resumed run completes and yields exactly the uninterrupted results (hence no partial or stale value) *)
+          sx_eqb out (expected_outcome q o)
+          (* ... also as read back from the folder afterwards *)
+          && sx_eqb (SL [SS (s "ok"); reload]) (expected_outcome q o)
+          (* and recomputes no element that was completely stored *)
+          && forallb (fun l => negb (mem_str l cl)) (stored_calls q o st lst)
+      | None => false
+      end
+  | Some _, _ => false
+  end.
+
 Definition spec_ok (c : case) (obs : sx) : bool :=
   match c with
   | CEvents q st old =>
@@ -199,21 +243,7 @@ Definition spec_ok (c : case) (obs : sx) : bool :=
           && negb (existsb (fun e => match e with SL [SS k; _] => str_eqb k (s "call") | _ => false end) evs2)
       | Some _, _ => false
       end
-  | CCrash q st old _ _ _ =>
-      if old then true else   (* the old protocol is only documented (see Props/C05.v, resume_refuted_inplace) *)
-      match mk_oracle q, obs with
-      | None, _ => true
-      | Some o, SL [lst; out; _; calls; reload] =>
-          match un_strs calls with
-          | Some cl =>
-              (* the resumed run completes and yields exactly the uninterrupted results (hence no partial or stale value) *)
-              sx_eqb out (expected_outcome q o)
-              (* ... also as read back from the folder afterwards *)
-              && sx_eqb (SL [SS (s "ok"); reload]) (expected_outcome q o)
-              (* and recomputes no element that was completely stored *)
-              && forallb (fun l => negb (mem_str l cl)) (stored_calls q o st lst)
-          | None => false
-          end
-      | Some _, _ => false
-      end
+  | CCrash q st old _ _ _ => if old then true else resumed_ok q st obs
+      (* the old protocol is only documented (see Props/C05.v, resume_refuted_inplace) *)
+  | CChain q st _ => resumed_ok q st obs
   end.
